@@ -131,6 +131,7 @@ type Sched struct {
 	pctPoints []uint64
 	pctNext   int
 	zeroRand  uint64
+	spinAdvance bool
 
 	// Values is a scratch area for scenario/oracle code.
 	Values map[string]any
@@ -369,13 +370,17 @@ func (s *Sched) yield(g *G, site int32) {
 			return
 		}
 		g.spin++
-		if g.spin < 20000 {
+		if g.spin < 3000 {
 			if s.Pol.PreemptDen == 0 || !s.St.Bool(1, s.Pol.PreemptDen) {
 				return
 			}
 			s.Stats.Preempts++
 		} else {
+			// a goroutine that keeps running through yields without ever
+			// blocking (a polling loop) is computing: computation takes
+			// time, so the root lets one simulated millisecond pass
 			s.Stats.ForcedPark++
+			s.spinAdvance = true
 		}
 	}
 	s.park(g, gRunnable, nil)
@@ -415,6 +420,10 @@ func (s *Sched) loop() {
 		if s.mainDone {
 			s.Stats.EndReason = "main returned"
 			return
+		}
+		if s.spinAdvance {
+			s.spinAdvance = false
+			time.Sleep(time.Millisecond)
 		}
 		now := time.Now()
 		if !now.Equal(s.lastNow) {
